@@ -121,6 +121,27 @@ func makeMetaInfo() *core.MetaInfo {
 	}
 	torrentInfoHash = mi.InfoHash().String()
 	torrentName = mi.Digest().Hex()
+	shapes = []*shape{{n: nPieces, pieceLen: pieceLen, blob: blob, infoHash: torrentInfoHash, name: torrentName, mi: mi}}
+	// 64 pieces (the bitfield fills its last word exactly) and 65 pieces (one
+	// piece in the second word), 2-byte pieces with a 1-byte last piece.
+	for _, n := range []int{64, 65} {
+		b := make([]byte, 2*n-1)
+		for i := range b {
+			b[i] = byte('a' + i%26)
+		}
+		dg, err := core.NewDigester().FromBytes(b)
+		if err != nil {
+			panic(err)
+		}
+		m, err := core.NewMetaInfo(dg, bytes.NewReader(b), 2)
+		if err != nil {
+			panic(err)
+		}
+		if m.NumPieces() != n {
+			panic("unexpected number of pieces")
+		}
+		shapes = append(shapes, &shape{n: n, pieceLen: 2, blob: b, infoHash: m.InfoHash().String(), name: m.Digest().Hex(), mi: m})
+	}
 	return mi
 }
 
@@ -518,6 +539,8 @@ func (c *child) runCase(tc tcase) {
 		} else {
 			c.runWire(tc, true)
 		}
+	case "sched", "sched+msg":
+		c.runSched(tc)
 	default:
 		c.runE2E(tc, tc.Victim)
 	}
@@ -1131,6 +1154,13 @@ func (c *child) runE2E(tc tcase, kind string) {
 	} else if !alive || tapClosed {
 		state = "ended"
 		c.count("attacker_conn_ended_by_victim")
+	}
+	if tc.MustEnd {
+		c.count("wrong_size_bitfields")
+		if state == "alive" {
+			c.violate("handshake with a bitfield of the wrong size accepted ("+kind+", in)", map[string]interface{}{
+				"note": "the connection is active after the handshake"})
+		}
 	}
 	var mt []string
 	for _, m := range tc.Msgs {
